@@ -43,6 +43,8 @@ def projects():
     ps.append({"alap": True, "resources": R, "tasks": [T("a", 90), T("b", 150, "r2", deps=["a"]), {"id": "g", "end": "2025-01-15-17:00", "children": [T("c", 200)]}]})
     ps.append({"resources": R, "tasks": [{"id": "phase", "children": [{"id": "build", "children": [T("core", 60), {"id": "ui", "children": [T("x", 30, "r2")]}]}, T("test", 45, deps=["!build"])]},
                                          {"id": "ops", "children": [T("deploy", 30, "r3"), {"id": "hand", "children": [T("docs", 20, "r3")]}]}]})
+    ps.append({"resources": R, "tasks": [{"id": "web", "children": [T("design", 300), T("code", 60, "r2")]},
+                                         {"id": "app", "children": [T("design", 180), T("code", 90, "r2", deps=["!design"])]}, T("design", 30, "r3")]})
     return ps
 
 
@@ -219,7 +221,7 @@ def run(ctx):
     st = Stats()
     explore(ctx, universe(ctx.tier), "mc.props.c18:evaluate", st, payload=payload, sample_of=sample, trait=trait)
     cov = st.coverage(
-        "7 scheduled projects (+ a two-scenario project with one report per scenario, generated in either order) (rates, efficiency, nested containers, milestone, unschedulable and run-away leaves, team, ALAP) x every "
+        "8 scheduled projects (+ a two-scenario project with one report per scenario, generated in either order) (rates, efficiency, nested containers, milestone, unschedulable and run-away leaves, team, ALAP) x every "
         "ordered selection of <= 2 (thorough 3) columns x report/project time formats x leaf-only flag x formats, each generated 3 times; "
         "states = distinct schedule observations; transitions = report generations; every case is non-trivial (distinct cases counted)")
     return ctx.finish(cov, ASSUME)
